@@ -30,6 +30,11 @@ type MuxStream struct {
 	// StaleClose: after the re-open the stale handle of the first connection is closed once more
 	// (closing repeatedly is allowed and must not touch the new connection on the same id)
 	StaleClose bool `json:"stale_close,omitempty"`
+	// CoOpen >= 2: the reading end's logical connection is not opened during set-up but by that many
+	// tasks calling Open for the id concurrently; the reader uses the handle task CoPick obtained (the
+	// writer waits until then). Whichever handle a caller got, it is the connection with that id.
+	CoOpen int `json:"co_open,omitempty"`
+	CoPick int `json:"co_pick,omitempty"`
 }
 
 type MuxShared struct {
@@ -98,6 +103,19 @@ func muxGen(focus string) func(rng *rand.Rand, conf string, idx int) any {
 						sz = pick(rng, muxBigSizes)
 					}
 					st.Sizes = append(st.Sizes, sz)
+				}
+				if focus == "C10" && dir == 0 && rng.Intn(5) == 0 {
+					// concurrent first opens at the reading end B: only for an id used by this stream alone, not accepted through a listener
+					lis := false
+					for _, l := range w.Listen {
+						if l == id {
+							lis = true
+						}
+					}
+					if !lis {
+						st.CoOpen = 2 + rng.Intn(3)
+						st.CoPick = rng.Intn(st.CoOpen)
+					}
 				}
 				if focus == "C10" && dir == 1 && len(st.Sizes) >= 2 && rng.Intn(5) == 0 {
 					// only when this id carries no stream in the other direction (the reader's connection is
@@ -228,6 +246,12 @@ func muxRun(t *testing.T, wl any, sc SchedCfg) *Result {
 		for _, id := range w.Listen {
 			lis[id] = true
 		}
+		coOpen := map[int]*MuxStream{}
+		for i := range w.Streams {
+			if st := &w.Streams[i]; st.CoOpen >= 2 && st.Dir == 0 && !lis[st.ID] {
+				coOpen[st.ID] = st
+			}
+		}
 		for _, id := range w.IDs {
 			var c net.Conn
 			var err error
@@ -257,6 +281,8 @@ func muxRun(t *testing.T, wl any, sc SchedCfg) *Result {
 					return
 				}
 				conns[1][id] = c
+			} else if co := coOpen[id]; co != nil {
+				// opened below, by several tasks at once
 			} else {
 				c, err := mb.Open(multiplex.ConnID(id))
 				if err != nil {
@@ -265,6 +291,34 @@ func muxRun(t *testing.T, wl any, sc SchedCfg) *Result {
 				}
 				conns[1][id] = c
 			}
+		}
+		if len(coOpen) > 0 {
+			got := map[int][]net.Conn{}
+			for id, st := range coOpen {
+				id, st := id, st
+				got[id] = make([]net.Conn, st.CoOpen)
+				for k := 0; k < st.CoOpen; k++ {
+					k := k
+					e.Task(fmt.Sprintf("co-open-%d-%d", id, k), func() {
+						c, err := mb.Open(multiplex.ConnID(id))
+						if err != nil {
+							res.Violate(w.Focus+".setup", "open %d: %v", id, err)
+						}
+						got[id][k] = c
+					})
+				}
+			}
+			if err := e.RunUntil(100000, func() bool { return e.TasksDone() }); err != nil {
+				res.Violate(w.Focus+".setup", "concurrent opens: %v", err)
+				return
+			}
+			for id, st := range coOpen {
+				if got[id][st.CoPick] == nil {
+					return
+				}
+				conns[1][id] = got[id][st.CoPick]
+			}
+			e.S.Probe("C10.connection-first-opened-by-concurrent-callers")
 		}
 		// second Accept must block until the listener is closed, then return io.EOF
 		accept2 := map[int]*struct {
